@@ -500,11 +500,23 @@ def apply_aliases(facts):
     if not missing:
         return {}
     new = [p for p, fn in by.items() if p not in sigs and fn.get('dk') in ('Fn', 'AssocFn') and 'hir' in fn and not fn.get('mac') and not fn.get('cfg_test')]
+    def bare(t):
+        # type string without generic arguments: a type that lost or gained a parameter is still that type
+        out, d = '', 0
+        for c in (t or ''):
+            if c == '<':
+                d += 1
+            elif c == '>':
+                d -= 1
+            elif d == 0:
+                out += c
+        return out
+
     def sig(fn):
-        return (tuple(fn.get('inputs') or ()), fn.get('output'), fn.get('impl_trait'))
+        return (tuple(bare(x) for x in (fn.get('inputs') or ())), bare(fn.get('output')), fn.get('impl_trait'))
     cand = {}
     for m in missing:
-        want = (tuple(sigs[m].get('inputs') or ()), sigs[m].get('output'), sigs[m].get('impl_trait'))
+        want = (tuple(bare(x) for x in (sigs[m].get('inputs') or ())), bare(sigs[m].get('output')), sigs[m].get('impl_trait'))
         cs = [n for n in new if sig(by[n]) == want and n.split('::')[0] == m.split('::')[0]]
         if len(cs) == 1:
             cand[m] = cs[0]
